@@ -5,6 +5,7 @@ usage: organize_seeded.py <results-log> [<results-log> ...]   (later logs overri
 import json, os, re, shutil, sys, glob, subprocess
 def sid_of(path):
     pid = os.path.basename(os.path.dirname(path)); n = re.sub(r'\D', '', os.path.basename(path))
+    if 'seeded-incoming4' in path: return f"{pid}-r4-{n}"
     if 'seeded-incoming3' in path: return f"{pid}-r3-{n}"
     return f"{pid}-r2-{n}" if 'seeded-incoming2' in path else f"{pid}-{n}"
 fired = {}; first = {}
@@ -18,7 +19,7 @@ for log in sys.argv[1:]:
         m = re.match(r'FIRED:(.*)', line)
         if m and cur: fired[cur] = ([x for x in m.group(1).split() if x != 'none'], os.path.basename(log))
 confirm = {}
-for d in ('seeded-incoming', 'seeded-incoming2', 'seeded-incoming3'):
+for d in ('seeded-incoming', 'seeded-incoming2', 'seeded-incoming3', 'seeded-incoming4'):
     p = f'/verif/{d}/CONFIRM.log'
     if not os.path.exists(p): continue
     for line in open(p, errors='replace'):
@@ -27,7 +28,7 @@ for d in ('seeded-incoming', 'seeded-incoming2', 'seeded-incoming3'):
 head = subprocess.run(['git','-C','/repo','rev-parse','--short','HEAD'],capture_output=True,text=True).stdout.strip()
 os.makedirs('/verif/seeded', exist_ok=True)
 rows = []
-for rnd, d0 in ((1, 'seeded-incoming'), (2, 'seeded-incoming2'), (3, 'seeded-incoming3')):
+for rnd, d0 in ((1, 'seeded-incoming'), (2, 'seeded-incoming2'), (3, 'seeded-incoming3'), (4, 'seeded-incoming4')):
     for d in sorted(glob.glob(f'/verif/{d0}/C[0-9][0-9]')):
         pid = os.path.basename(d)
         for n in ('1', '2'):
@@ -44,7 +45,7 @@ for rnd, d0 in ((1, 'seeded-incoming'), (2, 'seeded-incoming2'), (3, 'seeded-inc
             json.dump({
                 'id': sid, 'property': pid, 'round': rnd,
                 'summary': meta.get('summary'), 'needs_to_manifest': meta.get('needs'),
-                'origin': 'independent sub-agent given only the property text and a scratch worktree (nothing from /verif)' + (' ; round 2: asked for hard-to-find changes (conjunctions, interior values, call histories, leaked state)' if rnd == 2 else ' ; round 3: asked for regressions framed as optimisations, refactors, hardening or small features' if rnd == 3 else ''),
+                'origin': 'independent sub-agent given only the property text and a scratch worktree (nothing from /verif)' + (' ; round 2: asked for hard-to-find changes (conjunctions, interior values, call histories, leaked state)' if rnd == 2 else ' ; round 3: asked for regressions framed as optimisations, refactors, hardening or small features' if rnd == 3 else ' ; round 4: asked for something new: less-travelled trait impls and accessors, integer widths, allocation/capacity, evaluation order, equality' if rnd == 4 else ''),
                 'sub_agent_ran': meta.get('ran'),
                 'ported': (os.path.exists(orig) and 'delivered against 808db6c; re-expressed on the current HEAD after the fix 289077f restructured Writer (same slip, same demo)') or None,
                 'confirmed_by_me': dict(confirm.get(sid, {}), how='confirm_seeded.sh in a scratch worktree: demo dropped into tests/, run on the unmodified tree and with the patch; `cargo test --workspace --no-fail-fast --offline --lib` with the patch'),
